@@ -15,11 +15,13 @@ RULE = ("part classes: every kit class deriving its structure from its signature
         "included) plus, per supported geometry, user part classes with random signatures over IUPAC letters (NNNN included) in both "
         "roles; records with exactly two cutter sites: members of the type, members of sibling types, generic records with random "
         "overhangs, members with one overhang letter changed (near-misses), at a random rotation. characterize(): on the four kit bases "
-        "and on generated bases with 1..6 subclasses in both registration orders, for members of one subclass, of none, and of several. "
+        "and on generated bases with 1..6 subclasses in both registration orders, for members of one subclass, of none, and of several; families whose candidates use different enzymes "
+        "(MoCloPart and generated ones) with members of one candidate that carry another candidate's structure, intact or spoilt by a third site. "
         "Non-trivial = record with a unique generic match whose expected verdict was compared; distinct = distinct (class, record).")
 ASSUMPTIONS = ["records over ACGT with exactly one forward and one reverse cutter site (unique generic match)"]
 FLOORS = {"c05_compared": 3000, "c05_expected_accept": 500, "c05_expected_reject": 500, "c05_characterize_calls": 300,
-          "c05_characterize_returned": 100, "c05_characterize_raised": 50, "c05_late_subclass_characterizations": 50}
+          "c05_characterize_returned": 100, "c05_characterize_raised": 50, "c05_late_subclass_characterizations": 50,
+          "c05_mixed_enzyme_characterizations": 200}
 MUST_REACH = ["AbstractPart.structure", "AbstractPart.characterize"]
 BUDGET_S = {"quick": 900, "thorough": 7200}
 MODES = ["member", "sibling", "generic", "nearmiss"]
@@ -52,6 +54,8 @@ def cases(tier, seed):
         out.append({"kind": "characterize-kit", "base": b, "seed": seed, "count": 60 if tier == "quick" else 8000})
     for j in range(0, 40 if tier == "quick" else 6000, 10):
         out.append({"kind": "characterize-user", "from": j, "count": 10, "seed": seed})
+    for j in range(0, 40 if tier == "quick" else 3000, 10):
+        out.append({"kind": "characterize-mixed", "from": j, "count": 10, "seed": seed})
     return out
 
 
@@ -274,6 +278,54 @@ def execute(mat, ctx):
                     pass                          # recorded by the monitor as a wrong exception
             ctx.nontrivial([mat["base"], s])
         ctx.sample({"kind": "characterize-kit", "base": mat["base"], "candidates": [c.__name__ for c in subs][:6]}, cap=1)
+    elif kind == "characterize-mixed":
+        # families whose candidate types use different enzymes (as MoCloPart does: BsaI entries and a BpiI vector), and
+        # records that belong to one candidate while carrying, in their backbone, the signature structure of another
+        # candidate - intact, or spoilt by a third site of that candidate's enzyme
+        import importlib
+        from moclo.core.parts import AbstractPart
+
+        def nested(rng, owner, other, spoil):
+            inner = gen.instance(rng, other.structure(), run_min=10, run_max=24)
+            if spoil:
+                site = refmodel.geometry(other.cutter)[0]
+                mid = len(inner) // 2
+                inner = inner[:mid] + (site if rng.random() < 0.5 else rc(site)) + inner[mid:]
+            s = gen.instance(rng, owner.structure(), run_min=4, run_max=20) + gen.rand_dna(rng, rng.randint(0, 6)) + inner + gen.rand_dna(rng, rng.randint(1, 8))
+            return rot_left(s, rng.randrange(len(s)))
+
+        for j in range(mat["from"], mat["from"] + mat["count"]):
+            rng = gen.rng_for(mat["seed"], PROP, "charmixed", j)
+            if j % 3 == 0:
+                kitbase = getattr(importlib.import_module("moclo.kits.moclo"), "MoCloPart")
+                subs = list(kitbase.__subclasses__())
+                fam = kitbase
+            else:
+                names = rng.sample(gen.enzyme_names(), 2)
+                fam = type(str("XBase%d" % j), (AbstractPart,), {"cutter": gen.enzyme(names[0])})
+                subs = []
+                order = [0, 1, 0, 1][:rng.randint(2, 4)]
+                rng.shuffle(order)
+                for i, e in enumerate(order):
+                    enz = gen.enzyme(names[e])
+                    k = refmodel.geometry(enz)[2]
+                    role = gen.generic_classes(names[e])[rng.randrange(2)]
+                    subs.append(type(str("XSub%d_%d" % (j, i)), (fam, role), {"cutter": enz, "signature": (gen.rand_dna(rng, k), gen.rand_dna(rng, k))}))
+            for t in range(8):
+                owner = rng.choice(subs)
+                others = [c for c in subs if c.cutter is not owner.cutter] or [c for c in subs if c is not owner]
+                if not others:
+                    continue
+                other = rng.choice(others)
+                s = nested(rng, owner, other, spoil=rng.random() < 0.7)
+                ctx.count("evaluations")
+                ctx.count("c05_mixed_enzyme_characterizations")
+                try:
+                    fam.characterize(_record(s))      # judged by the monitor against fresh instances of every candidate
+                except (RuntimeError, NotImplementedError):
+                    pass
+                ctx.nontrivial(["charmixed", j, s])
+        ctx.sample({"kind": kind, "note": "families mixing enzymes; member of one candidate carrying another candidate's (spoilt) structure"}, cap=1)
     else:
         from moclo.core.parts import AbstractPart
 
